@@ -52,6 +52,7 @@ type AV struct {
 	R, E  Atom
 	K     Atom // maps: regions the keys may point into (values are in E)
 	isNil bool // the literal nil and nothing else (a call through it is dead code)
+	fields map[string]AV // struct values: per-field abstract values (pointer-like fields only)
 	fns   map[*ssa.Function]bool
 	env   *AV    // join of closure bindings
 	sites string // sorted "|"-joined allocation sites of address-taken local cells
@@ -83,6 +84,19 @@ func (a AV) join(b AV) AV {
 		r.env = a.env
 	case b.env != nil:
 		r.env = b.env
+	}
+	if len(a.fields) > 0 || len(b.fields) > 0 {
+		r.fields = map[string]AV{}
+		for k, v := range a.fields {
+			r.fields[k] = v
+		}
+		for k, v := range b.fields {
+			if o, ok := r.fields[k]; ok {
+				r.fields[k] = o.join(v)
+			} else {
+				r.fields[k] = v
+			}
+		}
 	}
 	if a.sites != "" || b.sites != "" {
 		m := map[string]bool{}
@@ -119,6 +133,14 @@ func (a AV) key() string {
 	nl := ""
 	if a.isNil {
 		nl = "nil"
+	}
+	if len(a.fields) > 0 {
+		var ks []string
+		for k, v := range a.fields {
+			ks = append(ks, k+"="+v.key())
+		}
+		sort.Strings(ks)
+		nl += "{" + strings.Join(ks, ";") + "}"
 	}
 	return fmt.Sprintf("%d.%d.%d.%s.%s.%s%s", a.R, a.E, a.K, strings.Join(fs, ","), ek, a.sites, nl)
 }
@@ -543,7 +565,13 @@ func (ra *RegionAnalysis) runBody(fn *ssa.Function, args []AV, ctxKey string) []
 						changed = set(x, get(x.Tuple)) || changed
 					}
 				case *ssa.Field:
-					changed = set(x, get(x.X)) || changed
+					sv := get(x.X)
+					fk := fieldKey(x.X.Type(), x.Field)
+					if fv, ok := sv.fields[fk]; ok {
+						changed = set(x, fv) || changed
+					} else if len(sv.fields) == 0 {
+						changed = set(x, AV{R: sv.R, E: sv.E, K: sv.K, fns: sv.fns, env: sv.env}) || changed
+					}
 				case *ssa.Index:
 					a := get(x.X)
 					changed = set(x, AV{R: a.E | a.R, E: a.E}) || changed
@@ -667,14 +695,18 @@ func (ra *RegionAnalysis) loadFrom(fn *ssa.Function, addr ssa.Value, get func(ss
 	}
 	et := addr.Type().Underlying().(*types.Pointer).Elem()
 	if _, isS := et.Underlying().(*types.Struct); isS {
-		// whole-struct load: conflate all fields
+		// whole-struct load: one abstract value per pointer-like field (and their join as a fallback)
 		st := et
 		s := st.Underlying().(*types.Struct)
+		fields := map[string]AV{}
 		for i := 0; i < s.NumFields(); i++ {
 			if pointerLike(s.Field(i).Type()) {
-				r = r.join(ra.getContents(p.R, fieldKey(st, i)))
+				fv := ra.getContents(p.R, fieldKey(st, i))
+				fields[fieldKey(st, i)] = fv
+				r = r.join(AV{R: fv.R, E: fv.E, K: fv.K})
 			}
 		}
+		r.fields = fields
 		return r
 	}
 	if p.sites != "" && p.R == aF {
@@ -727,7 +759,12 @@ func (ra *RegionAnalysis) storeInto(fn *ssa.Function, ins ssa.Instruction, addr 
 		if s, isS := et.Underlying().(*types.Struct); isS {
 			for i := 0; i < s.NumFields(); i++ {
 				if pointerLike(s.Field(i).Type()) {
-					ra.addContents(p.R, fieldKey(et, i), v)
+					fk := fieldKey(et, i)
+					if fv, ok := v.fields[fk]; ok {
+						ra.addContents(p.R, fk, fv)
+					} else if len(v.fields) == 0 {
+						ra.addContents(p.R, fk, AV{R: v.R, E: v.E, K: v.K, fns: v.fns, env: v.env})
+					}
 				}
 			}
 		} else if !onlyLocalCell {
